@@ -26,7 +26,7 @@ inductive GitSub where
 /-- the literal arguments that decide what a command does -/
 inductive ArgTag where
   | hard | rm | create | get | listFlag | stdinFlag | headLit | dyn | deleteFlag | verify | quietFlag
-  | batch | lit
+  | batch | lit | showArg | expireArg
   deriving DecidableEq, Repr
 
 structure GitCmd where
@@ -67,7 +67,8 @@ inductive Event where
     object store? (hand-audited classification of the subcommands the code base uses) -/
 def GitCmd.mutates (c : GitCmd) : Bool :=
   match c.sub with
-  | .fastImport | .updateRef | .reset | .reflog | .gc | .fetch => true
+  | .fastImport | .updateRef | .reset | .gc | .fetch => true
+  | .reflog => !c.tags.contains .showArg          -- `reflog show …` reads; `reflog expire`/`delete` write
   | .symbolicRef => c.tags.count .dyn + c.tags.count .lit ≥ 1 && !c.tags.contains .quietFlag  -- `symbolic-ref HEAD <target>` writes; `symbolic-ref -q HEAD` reads
   | .remote => c.tags.contains .rm
   | .config => !(c.tags.contains .get || c.tags.contains .listFlag)
@@ -231,5 +232,42 @@ def auditedBothPiped : List (SrcFile × GitSub × Bool) :=
 
 def readOnlyIn (f : SrcFile) (cs : List GitCmd) : Bool :=
   (cs.filter fun c => c.file == f).all fun c => !c.mutates
+
+/-! ### the module call graph: what can a mode reach? -/
+
+def reachStep (edges : List (SrcFile × SrcFile)) (s : List SrcFile) : List SrcFile :=
+  edges.foldl (fun acc (e : SrcFile × SrcFile) => if acc.contains e.1 && !acc.contains e.2 then e.2 :: acc else acc) s
+
+def reach (edges : List (SrcFile × SrcFile)) : Nat → List SrcFile → List SrcFile
+  | 0, s => s
+  | n + 1, s => reach edges n (reachStep edges s)
+
+/-- the modules whose functions `f` may call, transitively (21 source files ⇒ 21 rounds suffice; closedness is checked, not assumed) -/
+def reachable (edges : List (SrcFile × SrcFile)) (f : SrcFile) : List SrcFile := reach edges 21 [f]
+
+def closedUnder (edges : List (SrcFile × SrcFile)) (r : List SrcFile) : Bool :=
+  edges.all fun e => !r.contains e.1 || r.contains e.2
+
+/-- **C19/C20**: everything reachable from module `f` runs only non-mutating git commands and has exactly the
+    listed filesystem-write sites -/
+def readOnlyClosure (edges : List (SrcFile × SrcFile)) (cmds : List GitCmd) (fsw : List (SrcFile × Nat))
+    (f : SrcFile) (allowedWrites : List (SrcFile × Nat)) : Bool :=
+  let r := reachable edges f
+  r.contains f && closedUnder edges r &&
+  (cmds.filter fun c => r.contains c.file).all (fun c => !c.mutates) &&
+  (fsw.filter fun w => r.contains w.1) == allowedWrites
+
+theorem readOnlyClosure_sound {edges cmds fsw f allowed}
+    (h : readOnlyClosure edges cmds fsw f allowed = true) :
+    (∀ a b, (a, b) ∈ edges → a ∈ reachable edges f → b ∈ reachable edges f) ∧
+    (∀ c ∈ cmds, c.file ∈ reachable edges f → c.mutates = false) := by
+  simp only [readOnlyClosure, Bool.and_eq_true, closedUnder, List.all_eq_true, List.mem_filter,
+    Bool.or_eq_true, Bool.not_eq_true', List.contains_eq_mem, decide_eq_true_eq, decide_eq_false_iff_not] at h
+  obtain ⟨⟨⟨_, hc⟩, hm⟩, _⟩ := h
+  refine ⟨fun a b hab ha => ?_, fun c hc' hf => ?_⟩
+  · rcases hc (a, b) hab with h1 | h1
+    · exact absurd ha h1
+    · exact h1
+  · exact hm c ⟨hc', hf⟩
 
 end Frrs.Pipe
